@@ -243,6 +243,34 @@ func runC09(c *Ctx) {
 			}
 		}
 	}
+	// object members (known, unknown, folded, escaped and long keys; scalar and nested values) slid
+	// across the refill boundaries, into struct destinations: every byte of the member in turn is the
+	// one that needs the next read or the bigger window
+	members := []string{`"B":"xy"`, `"b":"v"`, `"unknownkey":-1.5e3`, `"zz":{"q":[1,2,"]"]}`, `"\u0042":"v"`, `"Aunknown":true`,
+		`"` + strings.Repeat("k", 40) + `":null`, `"C":[1.5,2e1]`, `"X":{"k":"v"}`, `"a\"b":1`}
+	byName := map[string]c09Dest{}
+	for _, d := range c09Dests {
+		byName[d.name] = d
+	}
+	for mi, m := range members {
+		for _, edge := range []int{511, 512, 1023, 1024, 2047} {
+			for off := 0; off <= len(m)+1; off++ {
+				pad := edge - off - 1
+				if pad < 0 || (c.Tier != "thorough" && edge > 600 && off%2 == 1) {
+					continue
+				}
+				doc := []byte("{" + strings.Repeat(" ", pad) + m + `,"A":5}`)
+				for _, dn := range []string{"struct", "skip", "raw"} {
+					c09One(c, doc, [][]byte{doc}, "member-boundary", byName[dn])
+				}
+				if off%4 == mi%4 {
+					c09One(c, doc, cutEvery(doc, 7), "member-boundary", byName["struct"])
+					c09One(c, doc, cutEvery(doc, 100), "member-boundary", byName["skip"])
+					c09One(c, doc, [][]byte{doc}, "member-boundary", byName["map"])
+				}
+			}
+		}
+	}
 	c09Concat(c, ndocs)
 	c09Tokens(c, ndocs)
 	c09ReaderErrors(c, ndocs)
